@@ -62,8 +62,16 @@ print('| seed | change | check | first run (commit 4528970) | final | first fail
 print('|------|--------|-------|----------------------------|-------|-------------------------|----------------------------------|')
 for r in rows:
     print('| %s%s | %s | %s | %s | %s | `%s` | %s |' % (r[0], ' (ported)' if r[5] else '', r[1], r[2], r[6], r[3], r[4], r[7]))
+def rnd(r):
+    return (int(r[0].split('-')[1]) - 1) // 2 + 1
+for k in (1, 2, 3):
+    rr = [r for r in rows if rnd(r) == k]
+    if rr:
+        print('\nround %d: %d of %d caught%s' % (k, sum(1 for r in rr if r[3].startswith('caught')), len(rr),
+                                                 '' if k < 3 else ' - vetted once, with the machinery exactly as committed, and not used to change anything afterwards'))
+rows12 = [r for r in rows if rnd(r) < 3]
 n = sum(1 for r in rows if r[3].startswith('caught'))
-n0 = sum(1 for r in rows if r[6] == 'caught')
+n0 = sum(1 for r in rows12 if r[6] == 'caught')
 ne = sum(1 for r in rows if r[3].startswith('caught') and r[7])
 print('\n%d of %d seeded changes are caught by the check of the property they break (%d of them only after an extension made with the seed in view); '
-      '%d of %d were caught by the machinery as committed at 4528970, before the round-2 results had been looked at.' % (n, len(rows), ne, n0, len(rows)))
+      '%d of the %d seeds of rounds 1 and 2 were caught by the machinery as committed at 4528970.' % (n, len(rows), ne, n0, len(rows12)))
